@@ -1099,6 +1099,9 @@ func (e *Engine) evalCall(env *Env, n *ECall) (TV, error) {
 		}
 		return TV{s.fromTerm(App("i-val", SInt, x), ty), ty}, nil
 	}
+	if tv, handled, err := e.bmainSpec(env, n.Fun, n.Args); handled {
+		return tv, err
+	}
 	// spec functions
 	if sf, ok := e.cs.Specs[n.Fun]; ok {
 		return e.evalSpecCall(env, sf, n.Args)
